@@ -243,11 +243,14 @@ def run(prog, tier) -> Result:
               reject(["ValueError"]))
     run_entry(prog, res, "R15.5", "QuantityMeta.derive_unit_from", "symbol not str", du_body("symbol not str"),
               reject(["TypeError"]))
-    run_entry(prog, res, "R15.5", "QuantityMeta.derive_unit_from", "matching base units, generated symbol",
-              du_body("matching-nosym"),
-              lambda o: None if o.kind == "raise" and o.exc.name in ("ValueError",) and not persistent_writes(o.state)
-              else judge_unit_registered(o, cls_tid="D", symbol_tag=None,
-                                         want_def_mag=lambda o: RF.atom(("mu", "u1")) / RF.atom(("mu", "u2"))))
+    outs_ns = run_entry(prog, res, "R15.5", "QuantityMeta.derive_unit_from", "matching base units, generated symbol",
+                        du_body("matching-nosym"),
+                        lambda o: None if o.kind == "raise" and o.exc.name in ("ValueError",) and not persistent_writes(o.state)
+                        else judge_unit_registered(o, cls_tid="D", symbol_tag=None,
+                                                   want_def_mag=lambda o: RF.atom(("mu", "u1")) / RF.atom(("mu", "u2"))))
+    res.ob("R15.5", "QuantityMeta.derive_unit_from", "a unit can be derived without giving a symbol",
+           any(o.kind == "return" for o in outs_ns), f"{[o.brief()[:60] for o in outs_ns][:4]}",
+           sig="derive_unit_from without symbol never succeeds")
 
     def du_base(I, c):
         base_types(c)
@@ -415,6 +418,36 @@ def run(prog, tier) -> Result:
             run_entry(prog, res, "R15.7", "QuantityMeta.__new__/__init__", f"derived={derived} ref_unit_symbol={ref}",
                       cls_body(derived, ref), judge_cls(derived, ref))
 
+    # ... and over a base type that has no reference unit there is no such product: a reference unit given by symbol
+    # is a unit of its own (no definition), none is synthesised
+    def cls_body_noref(ref):
+        def body(I, c):
+            base_types(c, second_has_ref=False)
+            return create_class(prog, I, c, derived=True, ref_symbol=ref, ref_name=ref)
+        return body
+
+    def judge_cls_noref(ref):
+        def judge(o):
+            st = o.state
+            if o.kind == "raise":
+                return None if not persistent_writes(st) else (f"{exc_sig(o)} after a persistent write", "")
+            cls = o.value
+            if not isinstance(cls, ClsV):
+                return ("class creation returns no class", repr(cls))
+            ru = st.cls_fields.get((st.tfind(cls.tid), "_ref_unit"))
+            if isinstance(ru, ObjV):
+                d = ru.fields.get("_definition")
+                if d is not None and not isinstance(d, NoneV):
+                    return ("reference unit defined as a product of base reference units although a base type has none",
+                            f"definition {d!r}")
+                if not ref:
+                    return ("reference unit synthesised although a base type has none", repr(ru))
+            return None
+        return judge
+    for ref in (False, True):
+        run_entry(prog, res, "R15.7", "QuantityMeta.__new__/__init__", f"derived over a type without reference unit, ref_unit_symbol={ref}",
+                  cls_body_noref(ref), judge_cls_noref(ref))
+
     # (R15.6, the initialisation-order rule over the call graph, became redundant: R15.7 evaluates class creation and
     # requires the new type's own unit map to list exactly its reference unit, with no write to any other map)
 
@@ -483,7 +516,9 @@ def run(prog, tier) -> Result:
                 c.st.type_defs[t] = "base"
             c.st.distinct_types("T1", "T2")
             c.new_type("D", has_ref=True, has_quantum=False, money=False)
-            if derived:
+            if derived == "power":
+                c.st.type_defs["D"] = I.models.binop(ast.Pow, ClsV("T1"), Num(RF.const(2), "int"), None)
+            elif derived:
                 c.st.type_defs["D"] = I.models.binop(ast.Div, ClsV("T1"), ClsV("T2"), None)
             else:
                 c.st.type_defs["D"] = "base"
@@ -493,19 +528,74 @@ def run(prog, tier) -> Result:
                 return BoolV(I.models.truth(v, None))
             return v
         return body
-    for derived in (False, True):
-        want = {"T1": 1, "T2": -1} if derived else {"D": 1}
+    def dname(derived):
+        return "derived (power of one type)" if derived == "power" else ("derived" if derived else "base")
+    for derived in (False, True, "power"):
+        want = {"T1": 2} if derived == "power" else ({"T1": 1, "T2": -1} if derived else {"D": 1})
         for what in ("definition", "normalized_definition"):
-            run_entry(prog, res, "R15.8", f"ClassWithDefinitionMeta.{what}", f"{what} of a {'derived' if derived else 'base'} type",
+            run_entry(prog, res, "R15.8", f"ClassWithDefinitionMeta.{what}", f"{what} of a {dname(derived)} type",
                       defn_body(derived, what), alg_judge(want), max_depth=14)
-        for what, val in (("is_base_cls", not derived), ("is_derived_cls", derived)):
-            run_entry(prog, res, "R15.8", f"ClassWithDefinitionMeta.{what}", f"{what} of a {'derived' if derived else 'base'} type",
+        for what, val in (("is_base_cls", not derived), ("is_derived_cls", bool(derived))):
+            run_entry(prog, res, "R15.8", f"ClassWithDefinitionMeta.{what}", f"{what} of a {dname(derived)} type",
                       defn_body(derived, what),
                       lambda o, val=val: (exc_sig(o), "") if o.kind == "raise" else
                       (None if isinstance(o.value, BoolV) and o.value.val == val else ("wrong answer", repr(o.value))), max_depth=14)
 
+    # ---- R15.9 the public accessors of a unit answer from what was declared (evaluated on the accessors' own code)
+    def acc_body(name, kind):
+        def body(I, c):
+            base_types(c)
+            u = c.unit("us", "T1", kind=kind)
+            fi = prog.method("Unit", name)
+            v = I.call_function(fi, [u], {})
+            c.st.acc = u
+            if isinstance(v, (CmpV,)):
+                return BoolV(I.models.truth(v, None))
+            return v
+        return body
+
+    def acc_judge(name, kind):
+        def judge(o):
+            st = o.state
+            if o.kind == "raise":
+                return (exc_sig(o), f"Unit.{name} raises")
+            v, u = o.value, st.acc
+            uid = st.ufind(u.uid)
+            if name == "symbol":
+                ok = isinstance(v, StrV) and v.tag == f"symbol({uid})"
+            elif name == "name":
+                # the given name if there is one (the path found it non-empty), the symbol otherwise
+                has_name = any(t.startswith("str-nonempty@") and t.endswith("=nonempty") for t in o.trace)
+                no_name = any(t.startswith("str-nonempty@") and t.endswith("=empty") for t in o.trace)
+                want_tag = f"name({uid})" if has_name and not no_name else (f"symbol({uid})" if no_name and not has_name else None)
+                ok = isinstance(v, StrV) and (v.tag == want_tag if want_tag else v.tag in (f"name({uid})", f"symbol({uid})"))
+            elif name == "qty_cls":
+                ok = isinstance(v, ClsV) and st.same_type(v.tid, "T1") is True
+            elif name in ("is_base_unit", "is_derived_unit"):
+                want = (kind == "base") == (name == "is_base_unit")
+                ok = isinstance(v, BoolV) and v.val == want
+            elif name == "is_ref_unit":
+                isref = st.same_unit(uid, st.ref_unit("T1")) is True
+                ok = isinstance(v, BoolV) and v.val == isref
+            elif name in ("definition", "normalized_definition"):
+                # the term that denotes the unit: its own scale, its own dimension (a base unit: itself to the power 1)
+                ok = isinstance(v, TermV) and st.norm(v.mag).equals(st.norm(mu_of(st, u))) and \
+                    {st.tfind(k): e for k, e in v.dims.items() if e != (0, 0)} == {st.tfind("T1"): (1, 0)}
+                if ok and kind == "base" and v.items is not None:
+                    ok = len(v.items) == 1 and isinstance(v.items[0][0], UnitV) and \
+                        st.same_unit(v.items[0][0].uid, uid) is True and st.norm(v.items[0][1].rf).equals(RF.const(1))
+            else:
+                ok = True
+            return None if ok else (f"Unit.{name} does not answer from the declaration", repr(v))
+        return judge
+    for name in ("symbol", "name", "qty_cls", "is_base_unit", "is_derived_unit", "is_ref_unit", "definition",
+                 "normalized_definition"):
+        for kind in ("base", "defined"):
+            if prog.lookup(prog.cls("Unit"), name) is not None:
+                run_entry(prog, res, "R15.9", f"Unit.{name}", f"{name} of a {kind} unit", acc_body(name, kind), acc_judge(name, kind))
+
     res.require("R15.1", 2)
-    res.require("R15.8", 20)
+    res.require("R15.8", 25)
     res.require("R15.5", 13)
-    res.require("R15.7", 4)
+    res.require("R15.7", 6)
     return res
